@@ -35,7 +35,15 @@ SOURCES = harness.SOURCE_ORDER
 FORMS = ['var', 'entity', 'expr', 'if', 'in', 'sub', 'sub-default',
          'let-name', 'with-only', 'if-expr', 'elif-expr', 'unless-expr',
          'sub-default-equal-map',
-         'sub-default-equal-sub', 'sub-default-self']
+         'sub-default-equal-sub', 'sub-default-self',
+         'namespace-expr', 'namespace-name']
+# names that coincide with names an expression could find elsewhere
+# (Python builtins, members of the `_` helper, methods of str / dict)
+NAMES = ['nn', 'max', 'id', 'filter', 'min', 'next', 'str', 'len', 'test',
+         'string', 'math', 'range', 'abs', 'title', 'upper', 'items', 'keys',
+         'random', 'DateTime', 'namespace', 'getattr', 'int', 'same_type',
+         'sorted', 'reorder', 'whrandom', 'var', 'render', 'this', 'md',
+         'REQUEST', 'args', 'kw']
 KINDS = ['plain', 'rec', 'tmpl', 'rec-keyerror', 'rec-nameerror',
          'tmpl-undef']
 # values whose evaluation fails: the highest-priority source still *defines*
@@ -54,7 +62,8 @@ def value(kind, tag, form):
         if kind == 'rec':
             return dict(t='rec', id=tag, ret=dict(t='list', items=[s]))
         return None
-    if kind in RAISING and form in ('in', 'expr'):
+    if kind in RAISING and form in ('in', 'expr', 'namespace-expr',
+                                    'namespace-name'):
         return None
     if form in ('if-expr', 'elif-expr', 'unless-expr'):
         # the object itself is true, what calling it returns is false
@@ -82,9 +91,10 @@ def expected(kind, tag, form):
     s = 'S:' + tag
     called = [['call', tag]] if kind == 'rec' else []
     shown = {'plain': s, 'rec': s, 'tmpl': 'T:' + tag}[kind]
-    if form in ('var', 'entity', 'sub', 'let-name', 'with-only'):
+    if form in ('var', 'entity', 'sub', 'let-name', 'with-only',
+                'namespace-name'):
         return '[' + shown + ']', called
-    if form == 'expr':
+    if form in ('expr', 'namespace-expr'):
         # expressions receive the object uncalled
         if kind == 'plain':
             return '[' + s + ']', []
@@ -127,6 +137,12 @@ def source_text(form):
         'sub-default-equal-map': '[<dtml-with eqmap mapping><dtml-let '
                                  'nn="\'LET\'"><dtml-var subd></dtml-let>'
                                  '</dtml-with>]',
+        # bound through the namespace helper: the object is bound as it is,
+        # a reference by name calls it, an expression receives it uncalled
+        'namespace-expr': '[<dtml-with "_.namespace(q=nn)"><dtml-var "q">'
+                          '</dtml-with>]',
+        'namespace-name': '[<dtml-with "_.namespace(q=nn)"><dtml-var q>'
+                          '</dtml-with>]',
         'sub-default-equal-sub': '[<dtml-var suba>]',
         'sub-default-self': '[<dtml-var subs>]',
     }[form]
@@ -178,8 +194,19 @@ def enum_case(subset, cform, form, kind):
     return sources, winner
 
 
+def rename(x, name):
+    """The structure with the probed name 'nn' replaced by `name`."""
+    if isinstance(x, dict):
+        return {(name if k == 'nn' else k): rename(v, name)
+                for k, v in x.items()}
+    if isinstance(x, list):
+        return [rename(v, name) for v in x]
+    return name if x == 'nn' else x
+
+
 def run_enum(case):
-    subset, cform, form, kind = case
+    subset, cform, form, kind = case[:4]
+    name = case[4] if len(case) > 4 else 'nn'
     built = enum_case(subset, cform, form, kind)
     if built is None:
         return 'skip'
@@ -187,6 +214,11 @@ def run_enum(case):
     if value(kind, winner, form) is None:
         return 'skip'
     src = source_text(form)
+    if name != 'nn':
+        if form.startswith('sub-default'):
+            return 'skip'
+        src = src.replace('nn', name)
+        sources = rename(sources, name)
     if not form.startswith('sub-default') and kind not in RAISING:
         exp_text, exp_log = expected(kind, winner, form)
     if form.startswith('sub-default'):
@@ -243,9 +275,9 @@ def run_enum(case):
         got = no[1] if no[0] == 'text' else no
         which = 'exception' if no[0] == 'raise' else 'wrong-source'
         return ('precedence:%s:%s' % (which, form),
-                'sources %s defining nn, winner should be %r (%s, %s): %r '
-                'rendered %r, expected %r' % (subset, winner, cform, kind,
-                                              src, got, exp_text))
+                'sources %s defining %s, winner should be %r (%s, %s): %r '
+                'rendered %r, expected %r' % (subset, name, winner, cform,
+                                              kind, src, got, exp_text))
     if log != exp_log:
         return ('precedence:calls:%s' % form,
                 '%r with %s: calls %r, expected %r' % (src, subset, log,
@@ -475,6 +507,8 @@ def plan(tier, seed):
     for form in FORMS:
         shards.append(dict(kind='enum', form=form))
     shards.append(dict(kind='underscore'))
+    for i in range(4):
+        shards.append(dict(kind='names', names=NAMES[1:][i::4]))
     kinds = sorted(BLOCKS)
     for i, a in enumerate(kinds):
         shards.append(dict(kind='nesting', outer=a,
@@ -500,6 +534,20 @@ def run_shard(shard):
                              distinct_by_construction=True)
                     if bad:
                         acc.fail(bad[0], case, bad[1])
+    elif shard['kind'] == 'names':
+        few = [[x] for x in SOURCES] + [list(SOURCES), list(SOURCES[2:])]
+        for name in shard['names']:
+            for form in FORMS:
+                for kind in KINDS:
+                    for subset in few:
+                        case = [subset, 'obj', form, kind, name]
+                        bad = run_enum(case)
+                        if bad == 'skip':
+                            continue
+                        acc.case(case, True, klass='enum-name:' + form,
+                                 distinct_by_construction=True)
+                        if bad:
+                            acc.fail(bad[0] + ':name', case, bad[1])
     elif shard['kind'] == 'nesting':
         kinds = sorted(BLOCKS)
         combos = [[shard['outer']]] + [[shard['outer'], b] for b in kinds]
